@@ -12,6 +12,8 @@ import EdzedModel.Filters
 import EdzedProofs.Filters
 import EdzedModel.Gen.Constants
 import EdzedModel.Gen.Translated
+import EdzedModel.Gen.TranslatedFilters
+import EdzedProofs.EditLoops
 
 namespace Edzed.Filters
 
@@ -480,5 +482,66 @@ theorem translated_edge_is_model (fl : Filters.EdgeFlags) (previous value : Val)
   unfold Gen.Tr.edgeCall Filters.edgePass
   cases h1 : previous.isUndef <;> cases h2 : value.truthy <;> cases h3 : previous.truthy <;>
     cases fl.rise <;> cases fl.fall <;> cases fl.urise <;> cases fl.ufall <;> simp [h1, h2, h3]
+
+/-! The edit functions that the `DataEdit` operations append to `_editlist`, translated from the source
+(`Gen.TrF.edit…`), ARE the model's `EditOp.apply`. -/
+
+open Filters in
+theorem translated_edit_add_is_model (env : Filters.Env) (kw d : Data) :
+    Gen.TrF.editAdd d kw = (EditOp.add kw).apply env d := rfl
+
+open Filters in
+theorem translated_edit_setdefault_is_model (env : Filters.Env) (kw d : Data) :
+    Gen.TrF.editSetdefault d kw = (EditOp.setdefault kw).apply env d := rfl
+
+open Filters in
+/-- `out` is the output of the source block at the time of the call -/
+theorem translated_edit_add_output_is_model (env : Filters.Env) (key src : String) (d : Data) :
+    Gen.TrF.editAddOutput d key (env src) = (EditOp.addOutput key src).apply env d := rfl
+
+open Filters in
+theorem translated_edit_copy_is_model (env : Filters.Env) (src dst : String) (d : Data) :
+    Gen.TrF.editCopy d src dst = (EditOp.copy src dst).apply env d := by
+  cases h : d.get? src <;> simp [Gen.TrF.editCopy, EditOp.apply, h]
+
+open Filters in
+theorem translated_edit_rename_is_model (env : Filters.Env) (src dst : String) (d : Data) :
+    Gen.TrF.editRename d src dst = (EditOp.rename src dst).apply env d := by
+  cases h : d.get? src with
+  | none => simp [Gen.TrF.editRename, EditOp.apply, h]
+  | some v =>
+    simp [Gen.TrF.editRename, EditOp.apply, h, Data.has_set_of_has d dst src v (Data.has_of_get?_some h)]
+
+open Filters in
+theorem translated_edit_delete_is_model (env : Filters.Env) (keys : List String) (d : Data) :
+    Gen.TrF.editDelete d keys = (EditOp.delete keys).apply env d := by
+  simp [Gen.TrF.editDelete, EditOp.apply, delete_fold]
+
+open Filters in
+/-- the user's function is arbitrary (`f`); a KeyError of `del data[key]` cannot occur after the
+    successful lookup -/
+theorem translated_edit_modify_is_model (env : Filters.Env) (key : String) (f : Val → ModRes) (d : Data) :
+    Gen.TrF.editModify d key f = (EditOp.modify key f).apply env d := by
+  cases h : d.get? key with
+  | none => simp [Gen.TrF.editModify, EditOp.apply, h]
+  | some cur =>
+    have hh := Data.has_of_get?_some h
+    cases hf : f cur <;>
+      simp [Gen.TrF.editModify, EditOp.apply, h, hf, Gen.TrF.mrIsReject, Gen.TrF.mrIsDelete, Gen.TrF.mrVal, hh]
+
+open Filters in
+/-- a Python dict has unique keys (`Nodup`): the loop over the snapshot `list(data)` then never fails
+    and leaves exactly the permitted items -/
+theorem translated_edit_permit_is_model (env : Filters.Env) (keys : List String) (d : Data)
+    (hd : (d.map (·.1)).Nodup) :
+    Gen.TrF.editPermit d keys = (EditOp.permit keys).apply env d := by
+  simp only [Gen.TrF.editPermit, EditOp.apply]
+  rw [permit_fold keys (d.map (·.1)) d hd (Data.has_of_mem_keys d), permit_filter]
+
+/-- `not_from_undef` -/
+theorem translated_not_from_undef_is_model (d : Data) :
+    Gen.Tr.notFromUndef d = Filters.notFromUndefPass d := by
+  unfold Gen.Tr.notFromUndef Filters.notFromUndefPass
+  cases d.get? "previous" <;> rfl
 
 end Edzed.TrTie
